@@ -1295,6 +1295,16 @@ def _tanh(a, out=None):
     return _out(map1(f, _obj(a)), out, "tanh")
 
 
+@H("tan")
+def _tan(a, out=None):
+    return _out(map1(lambda x: alg.sin(x) * alg.inv(alg.cos(x)), _obj(a)), out, "tan")
+
+
+@H("atan", "arctan")
+def _atan(a, out=None):
+    return _out(map1(lambda x: alg.atan2(x, alg.ONE), _obj(a)), out, "atan")
+
+
 @H("sinh")
 def _sinh(a, out=None):
     return _out(map1(lambda x: (alg.exp(x) - alg.exp(-x)) / 2, _obj(a)), out, "sinh")
